@@ -149,7 +149,12 @@ def norm(v):
         return [norm(x) for x in v]
     if isinstance(v, (bytearray, memoryview)):
         return bytes(v)
+    if isinstance(v, str) and v in _BARE_KINDS and not STRICT_ERRORS_EARLY:
+        return "err"            # batch ops report a refused element in-band by its bare kind name
     return v
+
+
+_BARE_KINDS = frozenset(list(ERR_KINDS.values()) + ["OtherE"])      # not Violation / Timeout / Crash / FuelE
 
 
 # --------------------------------------------------------------------------------------
